@@ -33,9 +33,100 @@ pub fn gen(ctx: &Ctx) -> Vec<Value> {
         for _ in 0..k {
             renderings.push(base.iter().map(|row| gen_schema::rerender(&mut r, &root, row)).collect());
         }
-        out.push(json!({"id": format!("present-{c:06}"), "seed": sub, "schema": schema, "renderings": renderings}));
+        // malformed stream: one rendering with ONE entry of one record repeated at a random position (repeated map
+        // key, struct field given twice in order / out of order, …): where the documented mapping is undefined the
+        // conversion must fail, whatever the presentation
+        let mut malformed: Vec<Vec<Value>> = Vec::new();
+        for _ in 0..2 {
+            let src = r.usize(renderings.len());
+            let mut rows = renderings[src].clone();
+            let at = r.usize(rows.len());
+            if inject_duplicate(&mut r, &mut rows[at]) {
+                malformed.push(rows);
+            }
+        }
+        out.push(json!({"id": format!("present-{c:06}"), "seed": sub, "schema": schema, "renderings": renderings, "malformed": malformed}));
     }
     out
+}
+
+fn count_records(v: &Value) -> usize {
+    let mut n = 0;
+    match v {
+        Value::Object(m) => {
+            let k = m.get("k").and_then(|k| k.as_str()).unwrap_or("");
+            let entries = match k {
+                "struct" | "struct_variant" => m.get("f"),
+                "map" => m.get("e"),
+                _ => None,
+            };
+            if entries.and_then(|e| e.as_array()).map(|a| !a.is_empty()).unwrap_or(false) {
+                n += 1;
+            }
+            for (_, x) in m {
+                n += count_records(x);
+            }
+        }
+        Value::Array(a) => {
+            for x in a {
+                n += count_records(x);
+            }
+        }
+        _ => {}
+    }
+    n
+}
+
+fn dup_in(r: &mut Rng, v: &mut Value, target: &mut isize) -> bool {
+    match v {
+        Value::Object(m) => {
+            let k = m.get("k").and_then(|k| k.as_str()).unwrap_or("").to_string();
+            let key = match k.as_str() {
+                "struct" | "struct_variant" => Some("f"),
+                "map" => Some("e"),
+                _ => None,
+            };
+            if let Some(key) = key {
+                if m.get(key).and_then(|e| e.as_array()).map(|a| !a.is_empty()).unwrap_or(false) {
+                    if *target == 0 {
+                        let arr = m.get_mut(key).unwrap().as_array_mut().unwrap();
+                        let which = r.usize(arr.len());
+                        let copy = arr[which].clone();
+                        let pos = r.usize(arr.len() + 1);
+                        arr.insert(pos, copy);
+                        *target = -1;
+                        return true;
+                    }
+                    *target -= 1;
+                }
+            }
+            for (_, x) in m.iter_mut() {
+                if dup_in(r, x, target) {
+                    return true;
+                }
+            }
+            false
+        }
+        Value::Array(a) => {
+            for x in a.iter_mut() {
+                if dup_in(r, x, target) {
+                    return true;
+                }
+            }
+            false
+        }
+        _ => false,
+    }
+}
+
+/// repeat one entry of one record-like node (struct / struct variant fields, map entries) of `row`
+fn inject_duplicate(r: &mut Rng, row: &mut Value) -> bool {
+    let n = count_records(row);
+    if n == 0 {
+        return false;
+    }
+    let mut target = r.usize(n) as isize;
+    dup_in(r, row, &mut target)
 }
 
 pub fn exec(input: &Value) -> Value {
@@ -47,9 +138,17 @@ pub fn exec(input: &Value) -> Value {
             serde_arrow::to_marrow(&fields, &Rows(rows)).map(|arrs| Value::Array(arrs.iter().map(dump::array_to_json).collect()))
         }));
     }
+    let mut mouts = Vec::new();
+    for rows in input["malformed"].as_array().map(|a| a.as_slice()).unwrap_or(&[]) {
+        let rows = rows.as_array().unwrap();
+        mouts.push(outcome::run(|| {
+            serde_arrow::to_marrow(&fields, &Rows(rows)).map(|arrs| Value::Array(arrs.iter().map(dump::array_to_json).collect()))
+        }));
+    }
     let mut case = input.clone();
     let obj = case.as_object_mut().unwrap();
     obj.insert("aux".into(), gen_schema::aux_for(&input["schema"], &input["renderings"]));
     obj.insert("impl".into(), Value::Array(outs));
+    obj.insert("impl_malformed".into(), Value::Array(mouts));
     case
 }
